@@ -71,11 +71,21 @@ def run(ctx, B):
     def spec(c, vol):
         return "%s %r %r %r %r %r %r %r %d " % (c["name"], c["a"], c["b"], c["c"], c["alpha"], c["beta"], c["gamma"], vol, len(c["atoms"])) + \
             " ".join("%d %r %r %r %r" % at for at in c["atoms"])
-    tmp_idx = X.define_crystals([spec(c, 1.0) for c in cells])
-    vols = X.call("Crystal_UnitCellVolume", tmp_idx)["v0"]
-    real_idx = X.define_crystals([spec(c, float(v)) for c, v in zip(cells, vols)])
-    for c, v, i in zip(cells, vols, real_idx):
-        c["volume"] = float(v); c["idx"] = i; c["builtin"] = False
+    # user crystals go through the public path: Crystal_AddCrystal into a user array (given volume 0: the library must recompute it),
+    # in an order in which most names do NOT sort last at the moment they are added, then Crystal_GetCrystal hands out the copy that is used
+    order = list(range(len(cells)))
+    order = order[1::2][::-1] + order[0::2]
+    real_idx_o = X.define_crystals([spec(cells[i], 0.0) for i in order], via_array=True)
+    real_idx = [None] * len(cells)
+    for k, i in enumerate(order):
+        real_idx[i] = real_idx_o[k]
+    rd, ld = X.op("crystal_dump", "i", real_idx)
+    bd = xrl.parse_blob_lines(ld)
+    for q, (c, i) in enumerate(zip(cells, real_idx)):
+        got = parse_crystal(bd[q]) if q in bd else None
+        if got is None or got["name"] != c["name"]:
+            raise common.Infra("user crystal %s could not be added / fetched through the public API" % c["name"])
+        c["volume"] = got["volume"]; c["idx"] = i; c["builtin"] = False
         crystals.append(c)
     ctx.notes["crystals"] = dict(builtin=len(names), generated=len(cells))
     M = 3 if quick else 6
